@@ -248,7 +248,3 @@ unsafe impl GlobalAlloc for Counting {
         }
     }
 }
-
-pub fn refused() -> u64 {
-    REFUSED.load(Ordering::SeqCst)
-}
